@@ -39,6 +39,7 @@ def required_cells(tier):
     for m in ("point-move", "point-attr", "point-item", "vector-item", "face-move"):
         req["mutate:" + m] = 100 if q else 2000
     req["copy"] = 200
+    req["history:returned-object-moved-by-caller"] = 100
     req["move-original"] = 100
     req["move-copy"] = 100
     for i in range(11):
@@ -178,6 +179,7 @@ def judge(case):
         snaps = cur
         return None
 
+    reask = []
     names = (["pool[%d]:%s" % (i, M.kind(o)) for i, o in enumerate(pool)])
     for step in case["script"]:
         if mu.viol is not None:
@@ -190,7 +192,29 @@ def judge(case):
             _, name, i, j = step
             mu.cell("query:" + name, "operand:%d" % i, "operand:%d" % j)
             del _helper_problem[:]
-            _answer(G, name, pool[i], pool[j])
+            ans = _answer(G, name, pool[i], pool[j])
+            if name == "intersection" and ans[0] == "obj" and (i + 2 * j) % 3 == 0 and i not in touched and j not in touched:
+                # the caller moves the object a query returned (when it is a fresh object): a later identical
+                # query must not be affected by that
+                try:
+                    r_ = G.intersection(pool[i], pool[j])
+                except Exception:
+                    r_ = None
+                if r_ is not None and hasattr(r_, "move"):
+                    pre = [M.snap(o) for o in W.everything()]
+                    vec_ = G.Vector(1.25, -0.5, 2.0)
+                    try:
+                        r_.move(vec_)
+                    except Exception:
+                        pass
+                    if [M.snap(o) for o in W.everything()] != pre:
+                        try:
+                            r_.move(G.Vector(-1.25, 0.5, -2.0))       # the result is (part of) an operand: put it back
+                        except Exception:
+                            pass
+                    else:
+                        mu.cell("history:returned-object-moved-by-caller")
+                        reask.append((i, j, ans))
             if _helper_problem:
                 mu.fail("helper-modifies-arguments", _helper_problem[0])
             bad = compare(step, ())
@@ -287,6 +311,15 @@ def judge(case):
                         "moving %s changed another object %s: %s" % (M.kind(obj), who, d))
             if target_idx < len(pool):
                 touched.add(target_idx)
+    if mu.viol is None and not M.ST.hash_flag:
+        for i, j, a0 in reask:
+            if i in touched or j in touched or i in ALIASING or j in ALIASING:
+                continue
+            a1 = _answer(G, "intersection", pool[i], pool[j])
+            if not _same_answer(a0, a1):
+                mu.fail("answer-changes-after-caller-moved-a-returned-object:%s,%s" % (M.kind(pool[i]), M.kind(pool[j])),
+                        "intersection(%s,%s) answered %r before and %r after the caller moved the earlier result" % (M.kind(pool[i]), M.kind(pool[j]), a0, a1))
+                break
     # answers must not depend on the history in between
     if mu.viol is None and not M.ST.hash_flag:
         for (n, i, j), a0 in zip(case["probes"], probes0):
